@@ -293,7 +293,7 @@ def generate(repo=REPO, out=OUT):
     a.append(f"def kindOfComplex : Kind := .{lk(mod['special_kind']['Complex'])}\n")
     a.append("/-- `Unit::canonical` (mod.rs:179) as a function of the kind -/")
     a.append("def Kind.canonical : Kind → Option KU\n" +
-             "\n".join(f"  | .{lk(k)} => some .{v}" for k, v in mod["canonical"].items()) + "\n  | _ => none\n")
+             "\n".join(f"  | .{lk(k)} => Option.some .{v}" for k, v in mod["canonical"].items()) + "\n  | _ => Option.none\n")
     a.append("/-- `Display for Unit` (mod.rs:259) -/")
     a.append("def KU.name : KU → String\n" + "\n".join(f'  | .{v} => "{mod["names"][v]}"' for v in known) + "\n")
     a.append("/-- constant expressions of conversion.rs -/")
